@@ -8,7 +8,7 @@
     (a callable calling once on the same cache self-deadlocks in the code; out of the property). *)
 From Coq Require Import List NArith Bool Arith.
 Import ListNotations.
-From Dawn Require Import Cache.Model Cache.Run Cache.Proofs Cache.NestedModel Cache.NestedProofs.
+From Dawn Require Import Cache.Model Cache.Run Cache.Proofs Cache.ScaleProofs Cache.NestedModel Cache.NestedProofs.
 
 (** Per key, at most one successful invocation of a callable is ever recorded: the list of values
     produced by successful invocations for k has length <= 1; equivalently, if the history contains
@@ -155,6 +155,23 @@ Theorem accepts_sound : forall c,
 Proof. exact accepts_sound_lemma. Qed.
 Print Assumptions accepts_sound.
 
+(** The lifetime of a cache.  No theorem above bounds the number of keys, calls or failures; this one
+    states what "at most once per key" and "the same value" mean over the whole life of a cache: from
+    ANY reachable state in which key k has an entry v (however many other keys are stored, however many
+    calls were made or failed) and along EVERY further schedule (more keys, failing callables, repeated
+    requests for k by any caller): the entry of k is still v, no callable for k is invoked any more
+    (successfully or not), the only successful invocation for k in the history is the one that
+    produced v, and every non-error return for k, old or new, carries v.  The scale family of the
+    harness drives the real cache to 10^5..10^6 entries and calls and checks exactly this. *)
+Theorem stored_key_is_never_recomputed : forall cfg s sched s' k v,
+  reachable cfg s -> lookup k (entries s) = Some v -> run s sched = Some s' ->
+  lookup k (entries s') = Some v /\
+  invocations k (hist s') = invocations k (hist s) /\
+  succ_vals k (hist s') = [v] /\
+  (forall c v', In (EReturn c k (RVal v')) (hist s') -> v' = v).
+Proof. exact stored_never_recomputed. Qed.
+Print Assumptions stored_key_is_never_recomputed.
+
 (** ---- callers in context: several caches, callables that call once on another cache ----
 
     Cache/NestedModel.v: n caches, threads with a stack of activations of once; a callable may call
@@ -242,6 +259,21 @@ Proof.
 Qed.
 
 (* both a matching and a non-matching observed history through the acceptance function *)
+(** the hypotheses of stored_key_is_never_recomputed are satisfiable and its conclusion is not vacuous: caller 0
+    stores keys 0..2, then caller 1 offers another callable for key 0 (after a failing call on a new key): the
+    callable for key 0 is not invoked again and caller 1 receives caller 0's value *)
+Example test_stored_key :
+  let cfg := [[(0, Ok 1); (1, Ok 2); (2, Ok 3)]; [(3, Fail); (0, Ok 9)]]%N in
+  match run (init cfg) (repeat 0%nat 30), run (init cfg) (repeat 0%nat 30 ++ repeat 1%nat 14) with
+  | Some s, Some s' =>
+      (optN_eqb (lookup 0%N (entries s)) (Some 1%N) && optN_eqb (lookup 0%N (entries s')) (Some 1%N)
+       && Nat.eqb (invocations 0%N (hist s)) 1 && Nat.eqb (invocations 0%N (hist s')) 1
+       && Nat.eqb (invocations 3%N (hist s')) 1
+       && events_eqb (firstn 1 (hist s')) [EReturn 1 0%N (RVal 1%N)] && all_done s')%bool
+  | _, _ => false
+  end = true.
+Proof. vm_compute. reflexivity. Qed.
+
 Example test_accepts_good :
   accepts (mkCase [[(0, Ok 1)]; [(0, Ok 2)]] [(0, 1); (1, 1); (1, 8); (0, 4); (1, 1)]%nat
                   [ECall 0 0; ECall 1 0; EInvoke 1 0 (Ok 2); EReturn 0 0 (RVal 2); EReturn 1 0 (RVal 2)]
